@@ -172,6 +172,26 @@ func (m *model) widened(c conn) bool {
 	return false
 }
 
+// narrowed: some possible connection X -> Y crosses a pass-through that has another typed neighbour W which
+// refuses a value that fits both X and Y: typing the pass-through as W refuses an assignable value.
+func (m *model) narrowed() bool {
+	for _, c := range m.conns {
+		if c.Class == never {
+			continue
+		}
+		for _, q := range c.Path {
+			for _, w := range m.attached(q) {
+				for _, d := range fitting(c.X) {
+					if fits(d, c.Y) && !fits(d, w) {
+						return true
+					}
+				}
+			}
+		}
+	}
+	return false
+}
+
 // ---------------------------------------------------------------------------------------------------
 // runs
 
@@ -191,6 +211,8 @@ type expect struct {
 	FailFrom string // error: position that produced the value ("start", "<node>.body", "<node>.pre", "<node>.post")
 	FailTo   string // error: position that must refuse it
 	HasNil   bool
+	// Ambiguous: the run is not judged at all (not even for panics)
+	Ambiguous bool
 }
 
 // chooser drives a depth-first enumeration of all choice sequences.
@@ -268,6 +290,7 @@ func (m *model) simulate(ch *chooser, withNil bool) expect {
 	// check: does token t pass a position declared y
 	var failWhy, failFrom, failTo string
 	unjudged := ""
+	ambiguous := false
 	check := func(t token, y int, to string) bool {
 		if assign(t.src, y) == must {
 			return true
@@ -320,6 +343,15 @@ func (m *model) simulate(ch *chooser, withNil bool) expect {
 					if d == dynSame {
 						d = t.v
 					}
+					if d != t.v && d != dynNil && p.node(n).Kind == "P" {
+						// A handler on a pass-through that changes the dynamic type: the statement does not say whether the
+						// value is checked before or after the handler. Judged only if the incoming value passes either way.
+						for _, c := range m.conns {
+							if c.From == n+"."+s.Kind && !fits(t.v, c.Y) {
+								ambiguous = true
+							}
+						}
+					}
 					t = token{v: d, src: s.Out, at: n + "." + s.Kind}
 				}
 				if hasNil {
@@ -348,11 +380,17 @@ func (m *model) simulate(ch *chooser, withNil bool) expect {
 				if hasNil {
 					return expect{Kind: "unjudged", Why: "nil interface value", HasNil: true}
 				}
+				if ambiguous {
+					return expect{Kind: "unjudged", Why: "a pass-through state handler replaced a value that its downstream refuses", Ambiguous: true}
+				}
 				if unjudged != "" {
 					return expect{Kind: "unjudged", Why: unjudged}
 				}
 				return expect{Kind: "error", Why: failWhy, FailFrom: failFrom, FailTo: failTo}
 			}
+		}
+		if ambiguous {
+			return expect{Kind: "unjudged", Why: "a pass-through state handler replaced a value that its downstream refuses", Ambiguous: true}
 		}
 		if len(endVals) > 0 {
 			return expect{Kind: "ok", Dyn: typeName[endVals[0].v]}
